@@ -21,6 +21,9 @@ func NewTransport(tlscfg *tls.Config) *http.Transport {
 			KeepAlive: cfg.Proxy.KeepAliveTimeout,
 		}).Dial,
 		TLSClientConfig: tlscfg,
+		// the proxy forwards the Accept-Encoding header of the client. It does
+		// not ask the upstream for gzip when the client did not.
+		DisableCompression: true,
 	}
 }
 
